@@ -2,3 +2,5 @@
 import XonshCerts.Basic
 import XonshCerts.Regex
 import XonshCerts.Dead
+import XonshCerts.Cost
+import XonshCerts.Actions
